@@ -188,6 +188,7 @@ func (c *countingClient) Status() client.SubResourceWriter {
 type world struct {
 	cli  *countingClient
 	c    *Case
+	chk  string
 	refs []v1beta1.ObjectRef
 }
 
@@ -213,7 +214,7 @@ func (c *Case) original(i int) map[string]interface{} {
 	return c.originals[i]
 }
 
-func newWorld(c *Case, pruning bool) *world {
+func newWorld(chk string, c *Case, pruning bool) *world {
 	inner := fake.NewClientBuilder().WithScheme(scheme).Build()
 	cm := &corev1.ConfigMap{ObjectMeta: metav1.ObjectMeta{Namespace: util.GetRolloutNamespace(), Name: custom.LuaConfigMap}, Data: map[string]string{}}
 	keys := make([]string, 0, len(c.Scripts))
@@ -227,7 +228,7 @@ func newWorld(c *Case, pruning bool) *world {
 	if err := inner.Create(context.TODO(), cm); err != nil {
 		panic("harness: create configmap: " + err.Error())
 	}
-	w := &world{cli: &countingClient{Client: inner, pruning: pruning}, c: c}
+	w := &world{cli: &countingClient{Client: inner, pruning: pruning}, c: c, chk: chk}
 	for i, r := range c.Refs {
 		u, err := decodeObject(r.Object)
 		if err != nil {
@@ -274,10 +275,25 @@ func (w *world) initialize() callResult {
 	return r
 }
 
+// isLuaDeadline: luamanager gives every script a wall-clock deadline of one second. On a busy
+// machine a stalled process can exceed it; that is an artefact of the test machine, not a result
+// of the input, so such a call is simply made again (as the controller would on its next
+// reconcile; the script runs before any object is updated).
+func isLuaDeadline(err error) bool {
+	return err != nil && strings.Contains(err.Error(), "context deadline exceeded")
+}
+
 func (w *world) ensure(s *v1beta1.TrafficRoutingStrategy) callResult {
 	var r callResult
-	sc := s.DeepCopy() // the manager hands the provider its own copy of the step's strategy
-	r.panicked, r.pmsg = vlib.Guard(func() { r.done, r.err = w.provider().EnsureRoutes(context.TODO(), sc) })
+	for attempt := 0; attempt < 6; attempt++ {
+		r = callResult{}
+		sc := s.DeepCopy() // the manager hands the provider its own copy of the step's strategy
+		r.panicked, r.pmsg = vlib.Guard(func() { r.done, r.err = w.provider().EnsureRoutes(context.TODO(), sc) })
+		if !isLuaDeadline(r.err) {
+			break
+		}
+		vlib.Class(w.chk, "lua-deadline-exceeded-call-repeated")
+	}
 	return r
 }
 
